@@ -50,7 +50,7 @@ func VerifDistributePoints(shards []VerifShardInfo, points []models.Point, maxSh
 
 // verifSyncFault is a fault point of the start-up synchronisation. The
 // environment variable VERIF_SYNC_FAULT = "<role>:<chunk>:<mode>" (role send |
-// recv | phase, mode exit | fail) makes the matching point kill the process or
+// recv | phase | records, mode exit | fail | sleep) makes the matching point kill the process or
 // return an error; it is read once per process.
 func verifSyncFault(role string, chunk int) error {
 	spec := os.Getenv("VERIF_SYNC_FAULT")
@@ -66,6 +66,11 @@ func verifSyncFault(role string, chunk int) error {
 	}
 	if parts[2] == "exit" {
 		os.Exit(7)
+	}
+	if parts[2] == "sleep" {
+		// delays this point (the sender of collection records to one destination) without failing it
+		time.Sleep(400 * time.Millisecond)
+		return nil
 	}
 	return fmt.Errorf("injected sync fault at %s chunk %d", role, chunk)
 }
